@@ -98,7 +98,7 @@ Definition res_beq {A} (f : A -> A -> bool) (a b : res A) : bool :=
   | _, _ => false
   end.
 
-Inductive dop := DAstype (d : dtype) | DReal | DComplex | DGetitem (i : pidx) | DByaxis (i : aidx).
+Inductive dop := DAstype (d : dtype) | DReal | DComplex | DGetitem (i : pidx) | DByaxis (i : aidx) | DByaxisIn (i : aidx).
 
 Definition run_dop (dv : dvariants) (a : obj Q) (op : dop) : res (obj Q) :=
   match op with
@@ -107,6 +107,7 @@ Definition run_dop (dv : dvariants) (a : obj Q) (op : dop) : res (obj Q) :=
   | DComplex => ocomplex_space dv a
   | DGetitem i => ogetitem dv a i
   | DByaxis i => match a with OTensor t => rmap OTensor (tsp_byaxis dv t i) | _ => ErrType end
+  | DByaxisIn i => obyaxis_in dv a i
   end.
 
 Record caseD := { d_dv : dvariants; d_a : obj Q; d_op : dop; d_out : res (obj Q) }.
@@ -143,5 +144,17 @@ Fixpoint obs_match (r : @eres Q) (o : obs) {struct r} : bool :=
   | _, _ => false
   end.
 
-Record caseE := { x_v : variants; x_S : obj Q; x_inp : @inp Q; x_out : obs }.
-Definition checkE (k : caseE) : bool := obs_match (element (x_v k) (x_S k) (x_inp k)) (x_out k).
+Record caseE := { x_v : variants; x_S : obj Q; x_ord : option ord; x_cast : bool; x_inp : @inp Q; x_out : obs }.
+Definition checkE (k : caseE) : bool :=
+  obs_match (element_opt (x_v k) (x_ord k) (x_cast k) (x_S k) (x_inp k)) (x_out k).
+
+(* ------------------------------------------------------------ element indexing *)
+From Verif Require Import C20.Indexing.
+Definition gres_beq (a b : @gres Q) : bool :=
+  match a, b with
+  | GScalar x, GScalar y => Qeq_bool x y
+  | GTens t d, GTens t' d' => tsp_beq t t' && all2 Qeq_bool d d'
+  | _, _ => false
+  end.
+Record caseG := { g_t : tsp Q; g_data : list Q; g_idx : list idx1; g_out : res (@gres Q) }.
+Definition checkG (k : caseG) : bool := res_beq gres_beq (tens_getitem (g_t k) (g_data k) (g_idx k)) (g_out k).
